@@ -121,7 +121,11 @@ class History:
             raise e.TypeError('`index` should be a tuple')
 
         # Gathers the numpy array from the attribute
-        attr = np.asarray(getattr(self, key))
+        # (records such as (position, fit) are ragged and need an object array)
+        try:
+            attr = np.asarray(getattr(self, key))
+        except ValueError:
+            attr = np.asarray(getattr(self, key), dtype=object)
 
         # Checks if attribute's dimensions are equal to the length of input index
         # We use `- 1` as the method retrieves values from all iterations
